@@ -661,3 +661,12 @@ def x16(cx: Cx, ob: Ob) -> None:
     check_match_record(cx, ob)
     check_merge(cx, ob)
     add_record_guards(cx, ob)
+
+
+@obligation("C04-X28", "derivations keep every record valid (shared with C12-D1 / C11-D1): after remap_uri_prefixes / rewire / remap_curie_prefixes the new canonical value is not left among the record's own synonyms - a record that lists its canonical URI prefix as a synonym is one the Record validators (and a reload of the converter's records) reject, although the strict constructor's pairwise check does not look inside one record", floor=2)
+def x28(cx: Cx, ob: Ob) -> None:
+    from .c11 import run_setalg as c11_setalg
+    from .c12 import d1 as c12_d1
+
+    c12_d1.fn(cx, ob) if hasattr(c12_d1, "fn") else c12_d1(cx, ob)
+    c11_setalg(cx, ob, want="loss")
